@@ -26,20 +26,20 @@ theorem C16_code_constants :
     (∀ m b, wrap .doNotConvert m b = withFresh Gen.doNotConvertStatus (b .native)) ∧
     (∀ m b, wrap .unspecified m b = withFresh Gen.unspecifiedWrapperStatus (b .native)) ∧
     (∀ b, functionScope true b = withFresh Gen.functionScopeStatus b) ∧
-    (∀ ur rec b s e, s.stack.head? = some e →
-      convertedCall ur rec b s = if e.status = Gen.convertedCallSkipsWhen then b .native s
-                                 else functionScope ur (b (.converted rec)) s) ∧
+    (∀ ur rec feat b s e, s.stack.head? = some e →
+      convertedCall ur rec feat b s = if e.status = Gen.convertedCallSkipsWhen then b .native s
+                                      else fsWith ur feat (b (.converted rec)) s) ∧
     (∀ rec e, calleeMode rec e = if e.status = Gen.convertedCallSkipsWhen then .native
                                  else if rec then .converted rec else .native) :=
   ⟨rfl, fun _ _ => rfl, fun _ _ => rfl, fun _ => rfl,
-   fun ur rec b s e h => by simp only [convertedCall, h]; rfl,
+   fun ur rec feat b s e h => by simp only [convertedCall, h]; rfl,
    fun _ _ => rfl⟩
 
 /-- `internal_convert` chooses its wrapper as the code's decision table says. -/
 theorem C16_code_internal_convert_table (e : Entry) (cbd ur : Bool) :
     resolveInternal e cbd ur =
       match Gen.internalChoice e.status cbd with
-      | .convertWithCtx => .convert ur true (some (.obj e))
+      | .convertWithCtx => .convert ur true false (some (.obj e))
       | .doNotConvert => .doNotConvert
       | .unspecifiedWrapper => .unspecified := by
   cases hs : e.status <;> cases cbd <;> simp [resolveInternal, hs, Gen.internalChoice]
@@ -49,6 +49,19 @@ theorem C16_code_internal_convert_table (e : Entry) (cbd ur : Bool) :
 the identity-checked pop; `FunctionScope` creates, enters and exits its context under the same guard
 `options.user_requested`; the wrappers call inside a `with` block. -/
 theorem C16_code_shapes_recognised : Gen.shapes.all (·.2) = true := by decide
+
+/-- Where `FunctionScope` can refuse its options relative to entering its context (regenerated step lists): the
+refusing assertions are in `__init__`, `__enter__` is just the conditional push — so the arrangement is safe in
+the sense of `C16_safe_scope_restores` below. -/
+theorem C16_code_function_scope_steps :
+    Gen.fsInitSteps.contains .check = true ∧ Gen.fsEnterSteps = [.pushIfUr] ∧
+    scopeSafe Gen.fsInitSteps Gen.fsEnterSteps = true := by decide
+
+/-- What the scope of the code under test does: accepted options → `functionScope`; refused options → the
+assertion is raised before anything is entered. -/
+theorem C16_code_function_scope (ur feat : Bool) (body : Comp) (s : TState) :
+    fsWith ur feat body s = if feat then ⟨s, some .rejected, []⟩ else functionScope ur body s :=
+  fsWith_eq ur feat body s
 
 /-! ## Restoration -/
 
@@ -64,11 +77,16 @@ theorem C16_top_restored (t : Tree) (p : Path) (m : Mode) (s : TState) :
   rw [C16_balanced]
 
 /-- The identity check in `ControlStatusCtx.__exit__` never fails and `control_status_ctx()` never finds
-an empty list: starting from a non-empty list, the only exception that can come out of a call is the
-one the user code raised. -/
+an empty list: starting from a non-empty list, the only exceptions that can come out of a call are the
+one the user code raised and a function scope's refusal of unsupported conversion options. -/
 theorem C16_only_user_exception_escapes (t : Tree) (p : Path) (m : Mode) (s : TState) (hs : s.stack ≠ [])
-    (e : Exn) (he : (runNode t p m s).out = some e) : ∃ q, e = .boom q :=
-  runNode_safe t p m s hs e he
+    (e : Exn) (he : (runNode t p m s).out = some e) : e = .rejected ∨ ∃ q, e = .boom q := by
+  have := runNode_safe t p m s hs e he
+  cases e with
+  | boom q => exact Or.inr ⟨q, rfl⟩
+  | rejected => exact Or.inl rfl
+  | assertion => exact this.elim
+  | index => exact this.elim
 
 /-- A whole harness thread: list restored, and the observation after the root call (made even when an
 exception escapes the root) reports the same object as the one before it. -/
@@ -119,21 +137,21 @@ theorem C16_status_do_not_convert (cs : List Tree) (ra : Option Nat) (ca : Bool)
 carried by a context object of its own, whatever the caller's status — also inside a `do_not_convert`
 region. -/
 theorem C16_status_to_graph (rec : Bool) (cs : List Tree) (ra : Option Nat) (ca : Bool) (p : Path) (m : Mode) (s : TState) :
-    ∀ o ∈ (runNode (.node (.toGraph rec false) cs ra ca) p m s).log, o.owner = p →
+    ∀ o ∈ (runNode (.node (.toGraph rec false false) cs ra ca) p m s).log, o.owner = p →
       o.top = some ⟨.fresh s.next, .enabled⟩ ∧ o.conv = true :=
-  C16_body_sees_one_context (.toGraph rec false) cs ra ca p m s _ _ rfl
+  C16_body_sees_one_context (.toGraph rec false false) cs ra ca p m s _ _ rfl
 
 /-- The same for a hand-entered `FunctionScope` / `with_function_scope` whose options are user-requested. -/
 theorem C16_status_user_requested_scope (cs : List Tree) (ra : Option Nat) (ca : Bool) (p : Path) (m : Mode) (s : TState) :
-    ∀ o ∈ (runNode (.node (.functionScope true) cs ra ca) p m s).log, o.owner = p →
+    ∀ o ∈ (runNode (.node (.functionScope true false) cs ra ca) p m s).log, o.owner = p →
       o.top = some ⟨.fresh s.next, .enabled⟩ :=
-  fun o ho hp => (C16_body_sees_one_context (.functionScope true) cs ra ca p m s _ _ rfl o ho hp).1
+  fun o ho hp => (C16_body_sees_one_context (.functionScope true false) cs ra ca p m s _ _ rfl o ho hp).1
 
 /-- A function scope that was *not* user-requested sees its caller's context. -/
 theorem C16_status_recursive_scope (cs : List Tree) (ra : Option Nat) (ca : Bool) (p : Path) (m : Mode) (s : TState) :
-    ∀ o ∈ (runNode (.node (.functionScope false) cs ra ca) p m s).log, o.owner = p →
+    ∀ o ∈ (runNode (.node (.functionScope false false) cs ra ca) p m s).log, o.owner = p →
       o.top = s.stack.head? :=
-  fun o ho hp => (C16_body_sees_one_context (.functionScope false) cs ra ca p m s _ _ rfl o ho hp).1
+  fun o ho hp => (C16_body_sees_one_context (.functionScope false false) cs ra ca p m s _ _ rfl o ho hp).1
 
 /-- A plain user function called from converted code (the recursive conversion): it is converted exactly
 when the status is not DISABLED and the caller's conversion is recursive, and either way it sees its
@@ -157,11 +175,11 @@ converted and its body sees ENABLED, on a fresh object. -/
 theorem C16_status_user_requested_convert (rec : Bool) (c : Option CtxRef) (cs : List Tree) (ra : Option Nat) (ca : Bool)
     (p : Path) (m : Mode) (s : TState) (e : Entry)
     (he : effective c s = some e) (hd : e.status ≠ .disabled) :
-    ∀ o ∈ (runNode (.node (.convert true rec c) cs ra ca) p m s).log, o.owner = p →
+    ∀ o ∈ (runNode (.node (.convert true rec false c) cs ra ca) p m s).log, o.owner = p →
       o.top = some ⟨.fresh s.next, .enabled⟩ ∧ o.conv = true := by
-  obtain ⟨s0, h0, hn, heq, _, _⟩ := insideConvert_eq true rec c s e he
-  have hi : inside (.convert true rec c) m s = some (pushFresh .enabled s0, .converted rec) := by
-    simp [inside, heq, insideConvertedCall, h0, hd]
+  obtain ⟨s0, h0, hn, heq, _, _⟩ := insideConvert_eq true rec false c s e he
+  have hi : inside (.convert true rec false c) m s = some (pushFresh .enabled s0, .converted rec) := by
+    simp [inside, heq, insideConvertedCall, h0, hd, insideScope]
   intro o ho hp
   have := C16_body_sees_one_context _ cs ra ca p m s _ _ hi o ho hp
   refine ⟨?_, by rw [this.2]; rfl⟩
@@ -169,14 +187,14 @@ theorem C16_status_user_requested_convert (rec : Bool) (c : Option CtxRef) (cs :
   simp [pushFresh, push, hn]
 
 /-- `convert(...)(f)` called where conversion is disabled: `f` runs unconverted and keeps seeing DISABLED
-(the same object `e`). -/
-theorem C16_status_convert_when_disabled (ur rec : Bool) (c : Option CtxRef) (cs : List Tree) (ra : Option Nat)
+(the same object `e`) — also when its options name an unsupported feature: no function scope is built. -/
+theorem C16_status_convert_when_disabled (ur rec feat : Bool) (c : Option CtxRef) (cs : List Tree) (ra : Option Nat)
     (ca : Bool) (p : Path) (m : Mode) (s : TState) (e : Entry)
     (he : effective c s = some e) (hd : e.status = .disabled) :
-    ∀ o ∈ (runNode (.node (.convert ur rec c) cs ra ca) p m s).log, o.owner = p →
+    ∀ o ∈ (runNode (.node (.convert ur rec feat c) cs ra ca) p m s).log, o.owner = p →
       o.top = some e ∧ o.conv = false := by
-  obtain ⟨s0, h0, _, heq, _, _⟩ := insideConvert_eq ur rec c s e he
-  have hi : inside (.convert ur rec c) m s = some (s0, .native) := by
+  obtain ⟨s0, h0, _, heq, _, _⟩ := insideConvert_eq ur rec feat c s e he
+  have hi : inside (.convert ur rec feat c) m s = some (s0, .native) := by
     simp [inside, heq, insideConvertedCall, h0, hd]
   intro o ho hp
   have := C16_body_sees_one_context _ cs ra ca p m s _ _ hi o ho hp
@@ -197,12 +215,85 @@ theorem C16_status_internal_convert (r : CtxRef) (cbd ur : Bool) (cs : List Tree
   · intro hen hur
     subst hur
     have hi : inside (.internalConvert r cbd true) m s = some (pushFresh .enabled (push e s), .converted true) := by
-      have h1 : inside (.internalConvert r cbd true) m s = insideConvert true true (some (.obj e)) s := by
+      have h1 : inside (.internalConvert r cbd true) m s = insideConvert true true false (some (.obj e)) s := by
         simp [inside, he, hen]
       rw [h1]
-      simp [insideConvert, insideConvertedCall, CtxRef.get, push, hen]
+      simp [insideConvert, insideConvertedCall, CtxRef.get, push, hen, insideScope]
     have := C16_body_sees_one_context _ cs ra ca p m s _ _ hi o ho hp
     exact ⟨by rw [this.1]; rfl, by rw [this.2]; rfl⟩
+
+/-! ## Failing entry -/
+
+/-- **A call that fails on entry restores the context too.**  Conversion options naming an optional feature the
+function scope does not support (NAME_SCOPES, AUTO_CONTROL_DEPS, ALL) make the call raise the scope's
+AssertionError: for `to_graph(f)(…)`, a hand-entered `FunctionScope`, and `convert(…)(f)(…)` where conversion is
+not disabled.  Nothing was observed, and the thread state afterwards is exactly the state before — the list
+(also the `conversion_ctx` the `convert` wrapper had entered is gone again) and even the object counter. -/
+theorem C16_refused_entry_restores (k : Kind) (cs : List Tree) (ra : Option Nat) (ca : Bool) (p : Path) (m : Mode)
+    (s : TState)
+    (hk : (∃ ur, k = .functionScope ur true) ∨ (∃ rec lam, k = .toGraph rec lam true) ∨
+          (∃ ur rec c e, k = .convert ur rec true c ∧ effective c s = some e ∧ e.status ≠ .disabled)) :
+    runNode (.node k cs ra ca) p m s = ⟨s, some .rejected, []⟩ := by
+  have hA := runNode_around k cs ra ca p m s
+  have key : ∀ s0, s0.stack = s.stack ∨ (∃ e, s0 = push e s) → s0.next = s.next →
+      inside k m s = some (s0, .refused) → runNode (.node k cs ra ca) p m s = ⟨s, some .rejected, []⟩ := by
+    intro s0 _ hn hi
+    rw [hi] at hA
+    unfold Around at hA
+    rw [hA, bodyOf_refuses cs ra ca p s0]
+    cases s; simp_all
+  rcases hk with ⟨ur, rfl⟩ | ⟨rec, lam, rfl⟩ | ⟨ur, rec, c, e, rfl, he, hd⟩
+  · exact key s (Or.inl rfl) rfl (by simp [inside, insideScope])
+  · exact key s (Or.inl rfl) rfl (by simp [inside, insideScope])
+  · obtain ⟨s0, h0, hn, heq, h1, h2⟩ := insideConvert_eq ur rec true c s e he
+    have hs0 : s0.stack = s.stack ∨ (∃ e, s0 = push e s) := by
+      cases c with
+      | none => exact Or.inl (by rw [h1 rfl])
+      | some r => exact Or.inr ⟨e, h2 r rfl⟩
+    exact key s0 hs0 hn (by simp [inside, heq, insideConvertedCall, h0, hd, insideScope])
+
+/-- The caller of such a call, if it catches the error, observes afterwards the very context it observed before
+(this is `C16_body_sees_one_context`: `caught` and `out` are body-level observations) — stated here for the
+simplest caller: a plain body whose only child is refused. -/
+theorem C16_refused_entry_seen_by_catching_caller (k : Kind) (cs : List Tree) (ra : Option Nat) (ca : Bool) (p : Path)
+    (s : TState)
+    (hk : (∃ ur, k = .functionScope ur true) ∨ (∃ rec lam, k = .toGraph rec lam true)) :
+    (runNode (.node .plain [.node k cs ra ca] none true) p .native s).log.map (fun o => (o.pt, o.top))
+      = [(.inn, s.stack.head?), (.pre 0, s.stack.head?), (.caught, s.stack.head?), (.out, s.stack.head?)] ∧
+    (runNode (.node .plain [.node k cs ra ca] none true) p .native s).out = none := by
+  have h := C16_refused_entry_restores k cs ra ca (0 :: p) .native s
+    (hk.elim Or.inl (fun h => Or.inr (Or.inl h)))
+  simp [runNode, wrap, plainCall, bodyC, bodyCore, runKids, obsAt] at h ⊢
+  simp [h, obsAt]
+
+/-- **In general**: a function scope whose `__init__` / `__enter__` perform *any* step lists restores the list on
+every path — normal exit, exception from the body, refusal of the options — provided no refusing check can fire
+after the context was pushed (`scopeSafe`: all checks in `__init__`, or none after the push in `__enter__`). -/
+theorem C16_safe_scope_restores (init enter : List Gen.FsStep) (ur feat : Bool) (body : Comp)
+    (hb : ∀ s, (body s).st.stack = s.stack) (hsafe : scopeSafe init enter = true) (s : TState) :
+    (scopeWith init enter ur feat body s).st.stack = s.stack :=
+  scopeWith_bal init enter ur feat body hb hsafe s
+
+/-- **Generator-function callees.**  Calling a wrapped generator function runs none of its body: the wrapper's
+contexts are entered around the mere creation of the generator and are gone again when the call returns — for every
+wrapper kind, from every caller mode and list.  (The generator's body then runs, resumption by resumption, at the
+consumer's level; the harness presents it to the model as a natively called body and checks on the real code that
+the creating call and every resumption leave the consumer's context alone.) -/
+theorem C16_generator_creation_restores (k : Kind) (m : Mode) (s : TState) :
+    (wrap k m (fun m' s' => if m' = .refused then ⟨s', some .rejected, []⟩ else ⟨s', none, []⟩) s).st.stack = s.stack ∧
+    (wrap k m (fun m' s' => if m' = .refused then ⟨s', some .rejected, []⟩ else ⟨s', none, []⟩) s).log = [] := by
+  have hb : MBal (fun m' s' => if m' = .refused then (⟨s', some .rejected, []⟩ : Res) else ⟨s', none, []⟩) := by
+    intro m' s'; by_cases h : m' = .refused <;> simp [h]
+  have hr : Refuses (fun m' s' => if m' = .refused then (⟨s', some .rejected, []⟩ : Res) else ⟨s', none, []⟩) := by
+    intro s'; simp
+  have hA := wrap_around k m _ hb hr s
+  refine ⟨around_bal hA, ?_⟩
+  cases hi : inside k m s with
+  | none => rw [hi] at hA; unfold Around at hA; rw [hA]
+  | some x =>
+    obtain ⟨s', m'⟩ := x
+    rw [hi] at hA; unfold Around at hA; rw [hA]
+    by_cases h : m' = Mode.refused <;> simp [h]
 
 /-- **Converted code never runs under DISABLED.**  At every observation of a whole thread's run, at any
 depth: if the observing body is converted code, the status it sees is not DISABLED.  (The status is
@@ -324,7 +415,7 @@ section Examples
 `do_not_convert` function whose callee raises (caught in the `do_not_convert` body), then a plain
 function, then raises itself — nobody catches. -/
 private def ex1 : Tree :=
-  .node (.convert true true (some (.obj ⟨.shared 1, .unspecified⟩)))
+  .node (.convert true true false (some (.obj ⟨.shared 1, .unspecified⟩)))
     [.node .doNotConvert [.node .plain [] (some 0) false] none true,
      .node .plain [] none false]
     (some 2) false
@@ -341,7 +432,7 @@ example : ((runThread ex1 TState.init).log.filter (fun o => o.pt = .inn)).map (f
     = [([0], true), ([0, 0], false), ([0, 0, 0], false), ([1, 0], true)] := by decide
 -- hypotheses of the status theorems are satisfiable
 example : effective (some (.obj ⟨.shared 1, .unspecified⟩)) TState.init = some ⟨.shared 1, .unspecified⟩ := rfl
-example : inside (.convert true true (some (.obj ⟨.shared 1, .unspecified⟩))) .native TState.init
+example : inside (.convert true true false (some (.obj ⟨.shared 1, .unspecified⟩))) .native TState.init
     = some (⟨[⟨.fresh 0, .enabled⟩, ⟨.shared 1, .unspecified⟩, ⟨.dflt, .unspecified⟩], 1⟩, .converted true) := by decide
 example : inside (.internalConvert .current true true) .native ⟨[⟨.fresh 0, .enabled⟩, ⟨.dflt, .unspecified⟩], 1⟩
     = some (⟨[⟨.fresh 1, .enabled⟩, ⟨.fresh 0, .enabled⟩, ⟨.fresh 0, .enabled⟩, ⟨.dflt, .unspecified⟩], 2⟩, .converted true) := by decide
@@ -349,7 +440,7 @@ example : inside (.internalConvert .current true true) .native ⟨[⟨.fresh 0, 
 example : inside (.withCtx .disabled true) (.converted true) ⟨[⟨.fresh 0, .enabled⟩, ⟨.dflt, .unspecified⟩], 1⟩
     = some (⟨[⟨.fresh 1, .disabled⟩, ⟨.fresh 0, .enabled⟩, ⟨.dflt, .unspecified⟩], 2⟩, .native) := by decide
 -- the same object entered twice: the identity-checked pop still succeeds, twice
-example : (runNode (.node (.convert false true (some .current)) [.node (.convert false true (some .current)) [] (some 0) false] none true)
+example : (runNode (.node (.convert false true false (some .current)) [.node (.convert false true false (some .current)) [] (some 0) false] none true)
     [0] .native TState.init).st.stack = Stack.init := by decide
 -- two threads, an interleaving: thread 1's log is its sequential log
 private def exG : Global := fun t => if t = 0 then Cfg.init ex1 TState.init else Cfg.init (.node .doNotConvert [] (some 0) false) TState.init
@@ -377,6 +468,26 @@ example : exG 1 = exG' 1 := rfl
 example : ([0, 1, 0, 1, 1] : List Tid).count 1 = ([1, 5, 1, 9, 9, 1, 3] : List Tid).count 1 := by decide
 example : runSched exG [0, 1, 0, 1, 1] 1 = runSched exG' [1, 5, 1, 9, 9, 1, 3] 1 :=
   C16_noninterference exG exG' _ _ 1 rfl (by decide)
+
+-- failing entry: `convert(user_requested=True, optional_features=NAME_SCOPES, conversion_ctx=<shared>)`, called from a
+-- body that catches the refusal: nothing leaks, the caller sees its own context again
+private def ex2 : Tree :=
+  .node .plain [.node (.convert true true true (some (.obj ⟨.shared 1, .unspecified⟩))) [.node .plain [] none false] none false]
+    none true
+example : (runThread ex2 TState.init).out = none := by decide
+example : (runThread ex2 TState.init).st = TState.init := by decide
+example : (runThread ex2 TState.init).log.map (fun o => (o.pt, o.top.map (·.id)))
+    = [(.start, some .dflt), (.inn, some .dflt), (.pre 0, some .dflt), (.caught, some .dflt), (.out, some .dflt),
+       (.fin, some .dflt)] := by decide
+example : effective (some (.obj ⟨.shared 1, .unspecified⟩)) TState.init = some ⟨.shared 1, .unspecified⟩ ∧
+    (⟨.shared 1, .unspecified⟩ : Entry).status ≠ .disabled := by decide
+-- the arrangement of the code under test is safe; the one with the checks moved behind the push is not, and the
+-- model then shows the leak: the refused call leaves the ENABLED context on the list
+example : scopeSafe [.check, .check] [.pushIfUr] = true := by decide
+example : scopeSafe [] [.pushIfUr, .check, .check] = false := by decide
+example : (scopeWith [] [.pushIfUr, .check, .check] true true (fun s => ⟨s, none, []⟩) TState.init).st.stack
+    = [⟨.fresh 0, .enabled⟩, ⟨.dflt, .unspecified⟩] := by decide
+example : (scopeWith [.check, .check] [.pushIfUr] true true (fun s => ⟨s, none, []⟩) TState.init).st.stack = Stack.init := by decide
 
 end Examples
 
